@@ -172,7 +172,41 @@ func checkC11(c *Ctx) {
 		for _, call := range callsTo(AL, false, "(*display.Engine).computeCoordinates") {
 			n++
 			b, ok := constBool(call.Common().Args[1])
-			r.Check(ok && !b, "C11.acceptline-real-line", fnAcceptDisp+":computeCoordinates(false)", p.IPos(call), "suggested=false", "AcceptLine computes coordinates with the auto-suggested line: with history-autosuggest on the suggestion is not erased and the cursor ends below it")
+			// what matters is not the literal but what computeCoordinates does with it: under the value AcceptLine
+			// passes, the rows of the line must not be measured on the auto-suggested line
+			CC := staticCallee(call)
+			measuresSuggested := true
+			if ok && CC != nil && len(CC.Params) == 2 {
+				flag := CC.Params[1]
+				assume := func(cond ssa.Value) (bool, bool) {
+					neg := false
+					for {
+						if u, isU := cond.(*ssa.UnOp); isU && u.Op == token.NOT {
+							cond = u.X
+							neg = !neg
+							continue
+						}
+						break
+					}
+					if cond == ssa.Value(flag) {
+						return b != neg, true
+					}
+					return false, false
+				}
+				target := func(in ssa.Instruction) bool {
+					if !isCallTo(in, "core.CoordinatesLine") {
+						return false
+					}
+					a := in.(ssa.CallInstruction).Common().Args
+					if len(a) == 0 {
+						return false
+					}
+					t, f, isF := fieldOf(a[0])
+					return isF && t == "display.Engine" && f == "suggested"
+				}
+				measuresSuggested = reachUnder(CC, assume, target, func(ssa.Instruction) bool { return false }) != nil
+			}
+			r.Check(ok && !measuresSuggested, "C11.acceptline-real-line", fnAcceptDisp+":computeCoordinates(false)", p.IPos(call), fmt.Sprintf("under the flag AcceptLine passes (%v) the suggested line is not measured", b), "AcceptLine computes coordinates with the auto-suggested line (under the flag it passes, computeCoordinates measures Engine.suggested): with history-autosuggest on the suggestion is not erased and the cursor ends below it")
 		}
 		if n == 0 {
 			r.Bad("C11.acceptline-real-line", fnAcceptDisp+":computeCoordinates(false)", p.Pos(AL.Pos()), "AcceptLine no longer recomputes coordinates before moving below the input")
